@@ -349,18 +349,38 @@ def native_regressions(chk):
             chk.validated += 1
 
 
+class WallClockBudget(Exception):
+    pass
+
+
 def run_check(prop, fn, tier, seed):
     chk = Check(prop, tier, seed)
+    budget = 600 if tier == "quick" else 5400   # the slowest check needs about 45 s (quick) / 4 min (thorough) on a loaded machine
+    import signal
+
+    def on_alarm(signum, frame):
+        raise WallClockBudget()
+    try:
+        signal.signal(signal.SIGALRM, on_alarm)
+        signal.alarm(budget)
+    except (ValueError, AttributeError):
+        pass
     try:
         fn(chk)
         if tier == "thorough":
             native_regressions(chk)
+    except WallClockBudget:
+        chk.undecide(f"wall-clock budget of {budget} s exceeded (path explosion on this code): nothing is claimed")
     except Unsupported as e:
         chk.undecide(f"unsupported construct: {e}")
         traceback.print_exc()
     except Exception as e:
         chk.fault(f"exception in checker: {e!r}")
         traceback.print_exc()
+    try:
+        signal.alarm(0)
+    except (ValueError, AttributeError):
+        pass
     return chk.finish()
 
 
